@@ -14,7 +14,7 @@ from .common import Driver
 
 THEOREM_MODULES = ["PygacModel.Theorems.C10"]
 RULE = ("files of all four formats whose header data-set name carries every transfer-mode x platform-code pair (ASCII "
-        "and EBCDIC), header vs file-name fallback, +- archive header, supplied as path / pathlib / open file at a "
+        "and EBCDIC), header vs file-name fallback, +- archive header (same / unset / another name), supplied as path / pathlib / open file at a "
         "non-zero position / BytesIO / gzip; plus random bytes, truncated files, truncated and bit-flipped gzip streams; "
         "after random histories of earlier selections. Judged: set of accepting readers, selected class, exception kind, "
         "file position. A case = (input, container, history); non-trivial = the input is accepted by some reader or is a "
@@ -59,8 +59,9 @@ def build_file(ctx, fmt, name, encoding="ascii", archive=False, name_in_header=T
         raw = raw[:ln] + (b"  " if (ln == 44 and encoding == "ascii") else b"")[: max(0, ln - len(raw))]
         raw = raw.ljust(ln, b"\0" if encoding == "ascii" else b"\x40")
     data[base + off: base + off + ln] = raw
-    if archive:   # the archive header carries the same name
-        araw = (name.encode("ascii") + b"  ")[:44]
+    if archive:   # the archive header carries the same name, an unset one (NULs + two blanks), or another valid name
+        aname = name if archive is True else "NSS.GHRR.NC.D81193.S0000.E0100.B0000000.GC" if archive == "other" else None
+        araw = (aname.encode("ascii") + b"  ")[:44] if aname else 42 * b"\0" + b"  "
         if fmt.startswith("klm"):
             data[30:72] = araw[:42]
         else:
@@ -253,7 +254,9 @@ def run(ctx):
         full = [("ascii", False, True, "name", "path"), ("cp500", False, True, "plain", "path"),
                 ("ascii", True, True, "plain", "pathlib"), ("ascii", False, False, "name", "path"),
                 ("ascii", False, True, "plain", "gzip"), ("ascii", False, True, "plain", "fileobj"),
-                ("ascii", True, True, "name", "bytesio"), ("cp500", True, True, "plain", "bytesio")]
+                ("ascii", True, True, "name", "bytesio"), ("cp500", True, True, "plain", "bytesio"),
+                ("ascii", "unset", True, "plain", "path"), ("ascii", "unset", True, "plain", "bytesio"),
+                ("cp500", "unset", True, "plain", "gzip"), ("ascii", "other", True, "plain", "path")]
         pairs = [(m, p) for m in list(MODES) + EXTRA_MODES for p in POD_IDS + KLM_IDS + EXTRA_IDS]
         for (m, p) in pairs:
             for fmt in CLASSES:
